@@ -2901,17 +2901,24 @@ func (uconn *UConn) ApplyPreset(p *ClientHelloSpec) error {
 				}
 
 				if curveID == X25519MLKEM768 || curveID == X25519Kyber768Draft00 {
-					ecdheKey, err := generateECDHEKey(uconn.config.rand(), X25519)
-					if err != nil {
-						return err
-					}
-					seed := make([]byte, mlkem.SeedSize)
-					if _, err := io.ReadFull(uconn.config.rand(), seed); err != nil {
-						return err
-					}
-					mlkemKey, err := mlkem.NewDecapsulationKey768(seed)
-					if err != nil {
-						return err
+					// A spec may carry both hybrid groups; there is one slot for the
+					// hybrid private keys, so both shares are built from the same keys
+					// and the client can answer whichever of them the server selects.
+					ecdheKey := uconn.HandshakeState.State13.KeyShareKeys.MlkemEcdhe
+					mlkemKey := uconn.HandshakeState.State13.KeyShareKeys.Mlkem
+					if ecdheKey == nil || mlkemKey == nil {
+						ecdheKey, err = generateECDHEKey(uconn.config.rand(), X25519)
+						if err != nil {
+							return err
+						}
+						seed := make([]byte, mlkem.SeedSize)
+						if _, err := io.ReadFull(uconn.config.rand(), seed); err != nil {
+							return err
+						}
+						mlkemKey, err = mlkem.NewDecapsulationKey768(seed)
+						if err != nil {
+							return err
+						}
 					}
 
 					if curveID == X25519Kyber768Draft00 {
